@@ -382,3 +382,11 @@ Proof.
       - destruct (a_assign r0); [right|]; apply IH; exact Hin. }
     rewrite Hex. reflexivity.
 Qed.
+
+(* clause 7 of the retry judge never fires on the model's own observation *)
+Lemma snap_eqb_refl x : snap_eqb x x = true.
+Proof. destruct x as [l|]; cbn; [|reflexivity]. apply list_eqb_refl. intros p. apply zz_eqb_refl. Qed.
+Lemma same_record_refl a : same_record a a = true.
+Proof. unfold same_record. apply forallb_forall. intros p _. apply snap_eqb_refl. Qed.
+Theorem spec_c06_retry_record_sound i : spec_c06_retry_record i (model_robs i) = [].
+Proof. unfold spec_c06_retry_record. rewrite same_record_refl. reflexivity. Qed.
